@@ -28,7 +28,7 @@ ASSUMPTIONS = [
 ]
 THRESH = [0.5, 0.3, "auto", "extrema", "mean", "otsu"]
 MINR = [0.0, 0.7, 3.0]
-IW = [None, 0.7]
+IW = [None, 0.0, 0.7]
 MODES = [0, 1, 2, 3]
 RARGS = [{}, {"vmin": None, "vmax": None}, {"vmin": None, "vmax": None, "adjust_values": True}]
 
@@ -160,7 +160,10 @@ def cases(block):
                         continue
                     if quick and thr == "otsu" and (modes or ai != 2):
                         continue
-                    yield {"part": p, "grid": g, "field": block["field"], "threshold": thr, "modes": modes, "iw": None, "refine": True, "rargs": ai, "minr": 0.0 if ai else 0.7}
+                    yield {"part": p, "grid": g, "field": block["field"], "threshold": thr, "modes": modes, "iw": [None, 0.0, 0.7][ai], "refine": True, "rargs": ai, "minr": 0.0 if ai else 0.7}
+                    if not slow and thr == 0.5:
+                        # the same request with several worker processes (controlled pool of mcx/sched.py, default schedule)
+                        yield {"part": p, "grid": g, "field": block["field"], "threshold": thr, "modes": modes, "iw": [None, 0.0, 0.7][ai], "refine": True, "rargs": ai, "minr": 0.0 if ai else 0.7, "nproc": 2 + ai}
     elif p == "render":
         yield from render_cases()
     elif p == "render-mismatch":
@@ -306,6 +309,11 @@ def run_locate(case, ctx):
     if p == "catalogue":
         data = cat_field(g, case["field"])
         combos = [(case["threshold"], case["minr"], case["iw"], case["modes"], case["refine"], RARGS[case.get("rargs", 0)])]
+        if case.get("nproc"):
+            from mcx import sched
+
+            sched.install()
+            ctx.count("requests-with-worker-processes")
     else:
         shape = tuple(g["shape"]) if "shape" in g else (g["n"],)
         data = np.array([c == "1" for c in case["bits"]], float).reshape(shape)
@@ -314,14 +322,15 @@ def run_locate(case, ctx):
             modes = (MODES if thorough else [0, 2]) if dim > 1 else [0]
             combos = [(t, m, iw, mo, False, {}) for t in (THRESH if thorough else [0.5, "auto", "mean", "otsu"]) for m in (MINR if thorough else [0.0, 3.0]) for iw in IW for mo in modes]
         else:
-            combos = [(0.5, 0.0, None, case["modes"], True, RARGS[case["rargs"]]), ("auto", 0.0, 0.7, case["modes"], True, RARGS[case["rargs"]])]
+            combos = [(0.5, 0.0, None, case["modes"], True, RARGS[case["rargs"]]), ("auto", 0.0, 0.0 if case["rargs"] == 1 else 0.7, case["modes"], True, RARGS[case["rargs"]])]
     field = ScalarField(grid, data)
     if np.any(data != 0):
         ctx.count("non-zero-field")
     for thr, minr, iw, modes, refine, rargs in combos:
         tags = {"part": p, "grid": g["kind"], "dim": dim, "refine": refine, "modes": modes, "threshold": str(thr), "rargs": "+".join(sorted(rargs)) or "default"}
         try:
-            em = locate_droplets(field, threshold=thr, minimal_radius=minr, interface_width=iw, modes=modes, refine=refine, refine_args=dict(rargs))
+            extra = {"num_processes": case["nproc"]} if case.get("nproc") else {}
+            em = locate_droplets(field, threshold=thr, minimal_radius=minr, interface_width=iw, modes=modes, refine=refine, refine_args=dict(rargs), **extra)
             ctx.op()
         except ValueError as e:
             if modes > 0 and dim == 1 and "Perturbed droplets only supported" in str(e):
@@ -395,4 +404,4 @@ def run_trackers(case, ctx):
 
 
 def expected_positive(tier):
-    return ["C09.no-raise", "C09.finite", "C09.documented-error", "non-zero-field", "refined-results", "time-course-with-empty-frame"]
+    return ["C09.no-raise", "C09.finite", "C09.documented-error", "non-zero-field", "refined-results", "time-course-with-empty-frame", "requests-with-worker-processes"]
